@@ -124,8 +124,9 @@ prop("C04", "exploration", HIST_RULE + "; C04 monitor M-books at every validated
      [{"name": "c04", "cmd": "c04", "shards": {"quick": 14, "thorough": 16}, "args": {"thorough": {"histories": 10}}, "crash_is_violation": True}],
      {"quick": 3000, "thorough": 40000},
      ["histories never cancel after broadcast and never reorganise (the statement excludes those)",
+      "once per history, while transactions are pending, the chain grows by 51-56 blocks at once (a transaction finalized long before it is broadcast)",
       "refreshes that report validated=false or an error are not judged"],
-     required_hist=["books:judged", "transition:Unconfirmed->Unspent", "transition:Locked->Spent", "transition:Unspent->Locked", "op:refresh-not-validated", "op:restart"])
+     required_hist=["books:judged", "transition:Unconfirmed->Unspent", "transition:Locked->Spent", "transition:Unspent->Locked", "op:refresh-not-validated", "op:restart", "op:burst-of-more-than-50-blocks"])
 
 prop("C15", "exploration", HIST_RULE + "; C15 monitor M-keypath: per wallet a map derivation path -> first (commitment, value) over every output record ever "
      "seen (including later deleted ones); a path re-appearing with another commitment or value is a violation unless both are coinbase and the earlier "
@@ -202,7 +203,8 @@ prop("C02", "exploration",
      "amount, lower fee or an extra output; payment-proof fields). Oracle 'success => exact': a reply that finalizes must give a transaction that validates, "
      "has the kernel fee agreed at initiation, spends exactly the inputs recorded in the context (recomputed from the seed by the harness), contains every "
      "recorded change output and no output that is neither change nor the counterparty's honest output, equals get_stored_tx byte for byte, and is mined by "
-     "the real chain; a refused reply leaves state unchanged and the transaction cancellable to the pre-send balance. distinct = (flow, alteration, outcome); "
+     "the real chain; a refused reply leaves state unchanged and the transaction cancellable to the pre-send balance. Per shard also: init, reply, lock, cancel_tx, "
+     "then finalize_tx with the honest reply (with change / without change output): refused, or every input reserved again. distinct = (flow, alteration, outcome); "
      "non-trivial = all",
      [{"name": "c02", "cmd": "c02", "shards": {"quick": 14, "thorough": 16}, "crash_is_violation": True, "timeout": {"quick": 900, "thorough": 3000}},
       {"name": "c02-asan", "cmd": "c02", "shards": 12, "tiers": ["thorough"], "run_tier": "quick", "build": "asan", "tag": "asan", "crash_is_violation": True, "timeout": {"thorough": 3000}}],
@@ -246,14 +248,14 @@ prop("C13", "exploration",
      "model tracks the current and superseded keys. Unauthenticated requests: plaintext calls of 35 owner methods with effect-capable parameters "
      "(create_account_path, init_send_tx, open/close/delete wallet, set_top_level_directory, get_mnemonic ...), envelopes under superseded or random keys, "
      "bit flips in ciphertext/tag/nonce, malformed nonces (short, long, non-hex, non-ASCII), bad base64, batch arrays mixing a valid envelope with a plaintext "
-     "call, plaintext calls carrying envelope fields, odd jsonrpc/id values, non-JSON bodies, forged result objects. Oracle: effect or data => authenticated: "
+     "call, plaintext batch arrays holding the key-exchange call next to other calls (first, last, followed by two), plaintext calls carrying envelope fields, odd jsonrpc/id values, non-JSON bodies, forged result objects. Oracle: effect or data => authenticated: "
      "after each such request the LMDB dump, files, open/closed state, top-level directory and active account are unchanged, the reply carries no result, and "
      "a probe under the current key still decrypts (session key unchanged). Authenticated requests (12 methods incl. calls that fail at the API level) must be "
      "answered with an envelope that decrypts under the same key. distinct = (request class, method, reply error code); non-trivial = all",
      [{"name": "c13", "cmd": "c13", "shards": {"quick": 12, "thorough": 16}, "crash_is_violation": True}],
      {"quick": 5000, "thorough": 100000},
      ["a request with valid ciphertext under the current key but another envelope method string is a don't-care (the statement only forbids effects of unauthenticated requests)"],
-     required_hist=["key-exchange:plaintext", "key-exchange:encrypted-reinit", "authenticated:inner-ok", "authenticated:inner-error", "unauthenticated:plaintext-call", "unauthenticated:envelope-under-superseded-key", "unauthenticated:bit-flipped-body", "unauthenticated:batch-array"])
+     required_hist=["key-exchange:plaintext", "key-exchange:encrypted-reinit", "authenticated:inner-ok", "authenticated:inner-error", "unauthenticated:plaintext-call", "unauthenticated:envelope-under-superseded-key", "unauthenticated:bit-flipped-body", "unauthenticated:batch-array", "unauthenticated:batch-array-with-key-exchange"])
 
 prop("C14", "exploration",
      "a wallet opened with a keychain mask; 30 api::Owner methods (each with arguments valid for the current state: own initiated / locked slates, a "
